@@ -599,3 +599,28 @@ Proof.
   cbv zeta. repeat split; try (vm_compute; congruence).
   repeat constructor; vm_compute; congruence.
 Qed.
+
+(* ------------------------------------------------------------------------------------------------ *)
+(* the view-level decision: "stale" needs EVERY listed file readable and old (or, for an empty listing, the
+   directory readable and old); nothing readable => not stale *)
+Lemma all_true_forall l : all_true l = true -> l <> [] /\ Forall (fun b => b = true) l.
+Proof.
+  destruct l as [|b r]; [discriminate|]. unfold all_true. intros H. split; [discriminate|].
+  apply Forall_forall. intros x Hx. rewrite forallb_forall in H. apply H. exact Hx.
+Qed.
+
+Lemma stale_view_l v now pms : 0 <= pms ->
+  is_stale_view v now (pms * ms) = true ->
+  (v_ls v = Some [] /\ exists d, v_dir v = Some d /\ (2 * pms + 1) * ms <= now - d) \/
+  (exists fs, v_ls v = Some fs /\ fs <> [] /\
+              Forall (fun s => exists m, s = Some m /\ (2 * pms + 1) * ms <= now - m) fs).
+Proof.
+  intros Hp. unfold is_stale_view. destruct (v_ls v) as [[|f fs]|] eqn:E; try discriminate.
+  - intros H. left. split; [reflexivity|]. destruct (v_dir v) as [d|]; [|discriminate].
+    exists d. split; [reflexivity|]. apply stale_time_iff in H; assumption.
+  - intros H. right. exists (f :: fs). split; [reflexivity|]. split; [discriminate|].
+    unfold files_all_stale in H. apply all_true_forall in H. destruct H as [_ H].
+    rewrite Forall_map in H. eapply Forall_impl; [|exact H].
+    intros s Hs. simpl in Hs. destruct s as [m|]; [|discriminate].
+    exists m. split; [reflexivity|]. apply stale_time_iff in Hs; assumption.
+Qed.
